@@ -286,7 +286,6 @@ pub(crate) type HeaderCollection = Vec<Header>;
 ///
 /// Can be obtained from [`VariedResponse::get_by_request`].
 pub(crate) struct CacheParams {
-    position: usize,
     headers: HeaderCollection,
 }
 
@@ -338,9 +337,20 @@ impl VariedResponse {
         params: CacheParams,
     ) -> &Arc<(CompressedResponse, HeaderCollection)> {
         debug_assert_eq!(self.reference_headers.len(), params.headers.len());
-        let CacheParams { position, headers } = params;
-        self.responses
-            .insert(position, Arc::new((response, headers)));
+        let CacheParams { headers } = params;
+        // The params were made before the response was computed. Other requests may have added
+        // variants since, or the page may have been cleared and cached again: find the place now.
+        let position = match self.get(&headers) {
+            Ok(position) => {
+                self.responses[position] = Arc::new((response, headers));
+                position
+            }
+            Err(position) => {
+                self.responses
+                    .insert(position, Arc::new((response, headers)));
+                position
+            }
+        };
         &self.responses[position]
     }
     fn get(&self, other: &[Header]) -> Result<usize, usize> {
@@ -379,10 +389,7 @@ impl VariedResponse {
         let headers = self.get_headers_for_request(request);
         match self.get(&headers) {
             Ok(position) => Ok(&self.responses[position]),
-            Err(sorted_position) => Err(CacheParams {
-                position: sorted_position,
-                headers,
-            }),
+            Err(_) => Err(CacheParams { headers }),
         }
     }
     pub(crate) fn first(&self) -> &Arc<(CompressedResponse, HeaderCollection)> {
